@@ -25,7 +25,10 @@ Channels (`Gen.pipeChanNames`): 0 `r.leaderUpdateCh`, 1 `r.stopCh` (the FIELD), 
 ones: `replicate.resultCh` split in two halves by the translator (`pipeCh_resultCh`: results with `err == nil`,
 `pipeCh_resultCh_err`: results with `err != nil` — so that the branch the reader takes on `result.err != nil` is the one the
 writer took on `err != nil`; the order between the halves is lost: an over-approximation), `replicate.stopCh` (`pipeCh_stopCh`,
-which SHADOWS the field), the two `drained`, and one `start:…` channel per go statement (closed by the spawner).
+which SHADOWS the field), the two `drained`, each split in the same way (`pipeCh_drained_k`: `drainResps()` returned nil, i.e. its
+`for range resultCh` ended because `resultCh` was closed; `pipeCh_drained_err_k`: it returned the error of a failed `readResp` — so
+that the reader's `if err != nil` after `err := <-drained` takes the branch that matches), and one `start:…` channel per go
+statement (closed by the spawner).
 
 ## Modelling assumptions
 
@@ -40,12 +43,13 @@ which SHADOWS the field), the two `drained`, and one `start:…` channel per go 
   For the never-stuck / can-finish theorems this is the HARDER case (a smaller buffer only makes the writer block earlier; receives
   are unaffected). For `pipeline_no_panic` it is a bounded check (the regimes empty / neither / full all occur);
   `Search/Pipe.lean` repeats it with larger capacities outside the kernel.
-* **Data is erased** except three tracked conditions (`err != nil` in the writer, `result.err != nil` in the reader, the error
-  result of `drainResps()`): every other branch is a free choice, so every real execution is a path of the skeleton.
+* **Data is erased** except four tracked conditions (`err != nil` in the writer, `result.err != nil` in the reader, the error
+  result of `drainResps()`, the error delivered on `drained`): every other branch is a free choice, so every real execution is a
+  path of the skeleton.
 * **One episode.** Every channel of an episode other than 0–3 is a fresh local that does not escape (checked by the
-  translator), so a later episode cannot touch it; `next_iteration_only_after_writer_exit` shows that when the reader goes on
-  to the next iteration the old writer is past its last communication. (When the reader RETURNS, the writer may still be
-  running in the SKELETON — see `skeleton_has_reader_returned_with_writer_running` for why that is an artefact on the repaired code; the can-finish theorems speak about states in which the reader is still in the episode.)
+  translator), so a later episode cannot touch it; `reader_returns_only_after_writer_done` shows that when the reader leaves the
+  episode — returns from `replicate()` or goes on to the next iteration — the writer is past its last communication and its
+  last use of the connection.
 * **Explicit `panic(…)` statements** of inlined callees (`onAppendEntriesResp`: `[BUG]` default case) are no-ops; variant P
   models a panic of `writeAppendEntriesReq` (it reaches `panic(opError(…))` in `getEntryTerm` / `writeEntriesTo`).
 -/
@@ -57,17 +61,19 @@ open Raft.Chan
 
 theorem inv_holds (s : State) (hs : Reachable pipeSys s) : inv s = true := pipeSys_explored s hs
 
-theorem writer_leadsTo (s : State) (hs : Reachable pipeSys s) :
-    (!(s.isClosed stopCh && !readerLeft s && noDrainerDone s && !writerWaitsForLeader s) || writerCanFinish s) = true := by
+theorem stopped_leadsTo (s : State) (hs : Reachable pipeSys s) (h1 : s.isClosed rStopCh = true) : episodeCanFinish s = true := by
   have h := pipeSys_live s hs
-  simp only [alwaysLive, Bool.and_eq_true] at h
-  exact h.1
+  simpa only [alwaysLive, h1, cond] using h
 
-theorem stopped_leadsTo (s : State) (hs : Reachable pipeSys s) :
-    (!(s.isClosed rStopCh && !readerLeft s && noDrainerDone s) || episodeCanFinish s) = true := by
+theorem writer_leadsTo (s : State) (hs : Reachable pipeSys s) (h1 : s.isClosed stopCh = true)
+    (h2 : writerWaitsForLeader s = false) : ∃ t, GroupReach pipeSys goroutines s t ∧ halted pipeSys t writer = true := by
   have h := pipeSys_live s hs
-  simp only [alwaysLive, Bool.and_eq_true] at h
-  exact h.2
+  cases hr : s.isClosed rStopCh
+  · simp only [alwaysLive, hr, cond, h1, h2, Bool.not_false, Bool.and_true, Bool.not_true, Bool.false_or] at h
+    exact canReach_sound h
+  · obtain ⟨t, ht, hg⟩ := canReach_sound (stopped_leadsTo s hs hr)
+    simp only [allDone, Bool.and_eq_true] at hg
+    exact ⟨t, ht, hg.1.1.2⟩
 
 /-- **no panic in the panic-free episode**, in any interleaving, whatever the leader does: no send on the closed `resultCh`,
     no double `close(stopCh)` — of the reader's three `close(stopCh)` sites (`three_close_sites`) at most one executes per
@@ -76,7 +82,7 @@ theorem pipeline_no_panic : ∀ s, Reachable pipeSys s → noPanic s = true := b
   intro s hs
   have h := inv_holds s hs
   simp only [inv, Bool.and_eq_true] at h
-  exact h.1.1.1
+  exact h.1.1.1.1.1
 
 /-- **the writer closes `resultCh` on every exit path** (the deferred `close(resultCh)`): once it has returned, both halves are closed -/
 theorem writer_closes_resultCh_on_every_exit :
@@ -84,7 +90,7 @@ theorem writer_closes_resultCh_on_every_exit :
   intro s hs hw
   have h := inv_holds s hs
   simp only [inv, Bool.and_eq_true, hw, Bool.not_true, Bool.false_or] at h
-  exact h.1.1.2
+  exact h.1.1.1.1.2
 
 /-- **`for range resultCh` ends / the reader is never stuck on `resultCh` or `drained`**: once the writer has returned, the reader
     has left, or can move on its own (a receive from the closed `resultCh`, a `drained` that was delivered), or a drainer it waits
@@ -96,61 +102,117 @@ theorem reader_never_stuck_after_writer_exit :
   intro s hs hw
   have h := inv_holds s hs
   simp only [inv, Bool.and_eq_true, hw, Bool.not_true, Bool.false_or] at h
-  exact h.1.2
+  exact h.1.1.1.2
 
 /-- a process that stands at a `for range` over a closed and drained channel can leave the loop on its own -/
 theorem range_terminates (y : Sys) (s : State) (i c nI nC : Nat) (h : y.nodeAt s i = .recvOrClosed c nI nC)
     (hb : s.bad = false) (hc : s.isClosed c = true) : enabledStrict y s i = true := by
   simp [enabledStrict, h, hb, recvReady, hc]
 
-/-- **the next iteration starts only after the old writer is past its last communication**: when the reader reaches the end
-    of the loop body (`break` after `log.ErrNotFound`, or after `drainResps()` returned nil), the writer has returned or has
-    only its deferred `close(resultCh)` left — it touches no channel of a later episode, nor `leaderUpdateCh` / the timer -/
+/-- **the reader leaves the episode only after the writer is done** (what finding F20 was about): in every reachable state in
+    which the reader has returned from `replicate()` or has reached the end of the loop body (next iteration), the writer has
+    returned or has only its deferred `close(resultCh)` left. It is past its last communication and past its last use of the
+    connection, of `req`, `r.nextIndex`, `r.timer`, `leaderUpdateCh`: `runLoop` gets them back with nobody else using them, and a
+    later episode starts with the old writer gone. -/
+theorem reader_returns_only_after_writer_done :
+    ∀ s, Reachable pipeSys s → readerLeft s = true → onExitPath pipeSys s writer = true := by
+  intro s hs hl
+  have h := inv_holds s hs
+  simp only [inv, Bool.and_eq_true, hl, Bool.not_true, Bool.false_or] at h
+  exact h.1.1.2
+
+/-- … in particular no reachable state has the reader returned while the writer is about to execute / executing
+    `writeAppendEntriesReq` (on the code as found there was one: F20) -/
+theorem writer_never_outlives_reader :
+    ∀ s, Reachable pipeSys s → readerLeft s = true → memNat (s.pc writer) Gen.pipeWriter_at_write = false := by
+  intro s hs hl
+  have h := inv_holds s hs
+  simp only [inv, Bool.and_eq_true, hl, Bool.not_true, Bool.false_or, Bool.not_eq_true'] at h
+  exact h.2
+
+/-- the next iteration, separately (the statement that justifies modelling ONE episode) -/
 theorem next_iteration_only_after_writer_exit :
     ∀ s, Reachable pipeSys s → s.pc reader = Gen.pipeReader_next → onExitPath pipeSys s writer = true := by
   intro s hs hp
+  apply reader_returns_only_after_writer_done s hs
+  simp only [readerLeft, halted, Sys.nodeAt, hp]
+  decide
+
+/-! ## every written request is reported (what finding F21 was about) -/
+
+/-- successors of a node of a control-flow graph through an edge that is NOT a send on channel `c` -/
+def succAvoiding (c : Nat) : Node → List Nat
+  | .comm cs d => (cs.filter fun k => !(k.send && Nat.beq k.chan c)).map (·.next) ++ d.toList
+  | .close _ n => [n]
+  | .choice ns => ns
+  | .halt => []
+  | .recvOrClosed _ a b => [a, b]
+
+/-- the program counters of `p` that can be reached from `work` without sending on `c` (`none`: out of fuel) -/
+def reachAvoiding (p : Proc) (c : Nat) : Nat → List Nat → List Nat → Option (List Nat)
+  | _, [], seen => some seen
+  | 0, _ :: _, _ => none
+  | fuel + 1, x :: work, seen =>
+    bif memNat x seen then reachAvoiding p c fuel work seen
+    else reachAvoiding p c fuel (succAvoiding c (p.code.getD x .halt) ++ work) (x :: seen)
+
+/-- the node is on the way out of the goroutine: `close` (the deferred `close(resultCh)`) or the return -/
+def isExitNode : Node → Bool
+  | .halt => true
+  | .close _ _ => true
+  | _ => false
+
+/-- the node is a `select` that offers a receive from `a` next to a send on `b` -/
+def offersRecvAndSend (a b : Nat) : Node → Bool
+  | .comm cs _ => (cs.any fun k => !k.send && Nat.beq k.chan a) && (cs.any fun k => k.send && Nat.beq k.chan b)
+  | _ => false
+
+/-- **every written request is reported**: in the control-flow graph of the writer, from the point just after
+    `writeAppendEntriesReq` returned nil (`Gen.pipeWriter_at_written`: the request is on the wire and WILL be answered) there is no
+    way to the writer's exit — its deferred `close(resultCh)`, its return — that does not pass through a send on `resultCh`; and no
+    `select` of the writer offers `<-stopCh` next to that send (the code as found did: the report of a written request could be
+    dropped when the pipeline was being stopped, its answer stayed unread). And when the writer stands at that point the
+    reader is still in the episode to take the report, and `resultCh` is still open. -/
+theorem every_written_request_is_reported :
+    Gen.pipeWriter_at_written ≠ [] ∧
+    (match reachAvoiding Gen.pipeWriter resultCh 100 Gen.pipeWriter_at_written [] with
+      | some pcs => pcs.all fun pc => !isExitNode (Gen.pipeWriter.code.getD pc .halt)
+      | none => false) = true ∧
+    (Gen.pipeWriter.code.all fun n => !offersRecvAndSend stopCh resultCh n) = true ∧
+    (∀ s, Reachable pipeSys s → writerHasWritten s = true → readerLeft s = false ∧ s.isClosed resultCh = false) := by
+  refine ⟨by decide, by decide, by decide, ?_⟩
+  intro s hs hw
   have h := inv_holds s hs
-  simp only [inv, Bool.and_eq_true, hp, Nat.beq_refl, Bool.not_true, Bool.false_or] at h
-  exact h.2
+  simp only [inv, Bool.and_eq_true, hw, Bool.not_true, Bool.false_or, Bool.not_eq_true'] at h
+  exact h.1.2
 
 /-! ## the writer terminates -/
 
-/-- **the writer terminates once stopped**: after the reader's `close(stopCh)` (the LOCAL one), as long as the reader is still in
-    the episode and no drainer has delivered its result (`noDrainerDone`: the artefact states of the skeleton), the goroutines of the episode can bring the writer to its return on their own — strict steps only, no timer fires,
-    the leader does nothing, no panic — unless the writer is blocked in `notifyLdr` with `r.stopCh` still open, where the leader
-    releases it. (The writer alone is not enough since the repair of F21: a request that is on the wire is always reported on
-    `resultCh`, and the reader, which drains `resultCh` until it is closed on every exit, may have to take that report.) -/
+/-- **the writer terminates once stopped**: from EVERY reachable state in which the reader's `close(stopCh)` (the LOCAL one) has
+    happened, the goroutines of the episode can bring the writer to its return on their own — strict steps only, no timer fires,
+    the leader does nothing, no panic — unless the writer is blocked in `notifyLdr` with `r.stopCh` still open, where only the
+    leader releases it (`C15Chan.notifyLdr_returns_once_stopped`). (The writer alone is not enough since the repair of F21: a request
+    that is on the wire is always reported on `resultCh`, and the reader, which drains `resultCh` until it is closed on every exit,
+    may have to take that report.) -/
 theorem writer_terminates_once_stopped :
-    ∀ s, Reachable pipeSys s → s.isClosed stopCh = true → readerLeft s = false → noDrainerDone s = true →
-      writerWaitsForLeader s = false →
-      ∃ t, GroupReach pipeSys goroutines s t ∧ halted pipeSys t writer = true := by
-  intro s hs h1 h2 h4 h3
-  have h := writer_leadsTo s hs
-  simp only [h1, h2, h3, h4, Bool.not_false, Bool.and_true, Bool.not_true, Bool.false_or] at h
-  exact canReach_sound h
-
-/-! NOTE (not an obligation; `RaftGen/Notes/PipeObservations.lean`): the SKELETON still has a reachable state in which the reader
-has returned while the writer is at `writeAppendEntriesReq`. On the code as found this was real (finding F20, repaired). On the
-repaired code it is an artefact of data erasure: the translator does not track whether the value delivered on `drained` is nil
-(clean drain: `resultCh` was closed, so the writer HAS finished) or an error (the repaired code then waits in
-`for range resultCh {}`), so the skeleton takes the "nil" branch after an error. -/
+    ∀ s, Reachable pipeSys s → s.isClosed stopCh = true → writerWaitsForLeader s = false →
+      ∃ t, GroupReach pipeSys goroutines s t ∧ halted pipeSys t writer = true :=
+  writer_leadsTo
 
 /-! ## once the leader closed `r.stopCh`, everything finishes -/
 
 /-- **once `r.stopCh` is closed by the leader, the whole replication goroutine can finish**: in the probe loop
-    `checkLeaderUpdate` returns (`C15Chan.checkLeaderUpdate_returns_once_stopped`), and from every reachable state of a pipelining
-    episode in which the reader has not left, the goroutines of the episode can, on their own (strict steps: no timer fires, the leader does nothing more),
+    `checkLeaderUpdate` returns (`C15Chan.checkLeaderUpdate_returns_once_stopped`), and from EVERY reachable state of a pipelining
+    episode the goroutines of the episode can, on their own (strict steps: no timer fires, the leader does nothing more),
     reach the state where reader and writer have returned and every started drainer has returned. Since `r.stopCh` stays
     closed this holds again in every state they pass through: under a fair scheduler the episode ends. -/
 theorem replication_can_finish_once_stopped :
     (∀ s, Reachable C15Chan.waitSys s → (!s.isClosed 1 || enabledStrict C15Chan.waitSys s 0) = true) ∧
-    (∀ s, Reachable pipeSys s → s.isClosed rStopCh = true → readerLeft s = false → noDrainerDone s = true →
+    (∀ s, Reachable pipeSys s → s.isClosed rStopCh = true →
       ∃ t, GroupReach pipeSys goroutines s t ∧ allDone t = true ∧ Reachable pipeSys t) := by
   refine ⟨C15Chan.checkLeaderUpdate_returns_once_stopped, ?_⟩
-  intro s hs h1 h2 h3
-  have h := stopped_leadsTo s hs
-  simp only [h1, h2, h3, Bool.not_false, Bool.and_true, Bool.not_true, Bool.false_or] at h
-  obtain ⟨t, ht, hg⟩ := canReach_sound h
+  intro s hs h1
+  obtain ⟨t, ht, hg⟩ := canReach_sound (stopped_leadsTo s hs h1)
   exact ⟨t, ht, hg, ht.reachable hs⟩
 
 /-! ## the recover path (variant P) -/
@@ -198,10 +260,12 @@ theorem episode_census :
     ([Gen.pipeCh_start_pipeWriter, Gen.pipeCh_start_pipeDrainerStop, Gen.pipeCh_start_pipeDrainerStale].all fun c =>
       closeSites Gen.pipeReader c == 1 &&
       [Gen.pipeWriter, Gen.pipeDrainerStop, Gen.pipeDrainerStale].all fun p => closeSites p c == 0) = true ∧
-    (sendsOn Gen.pipeDrainerStop Gen.pipeCh_drained_1 && !sendsOn Gen.pipeDrainerStale Gen.pipeCh_drained_1 &&
-      sendsOn Gen.pipeDrainerStale Gen.pipeCh_drained_2 && !sendsOn Gen.pipeDrainerStop Gen.pipeCh_drained_2 &&
-      [Gen.pipeWriter, Gen.pipeDrainerStop, Gen.pipeDrainerStale].all fun p =>
-        !recvsOn p Gen.pipeCh_drained_1 && !recvsOn p Gen.pipeCh_drained_2) = true := by decide
+    ([Gen.pipeCh_drained_1, Gen.pipeCh_drained_err_1].all fun c =>
+      sendsOn Gen.pipeDrainerStop c && !sendsOn Gen.pipeDrainerStale c && !sendsOn Gen.pipeWriter c && !sendsOn Gen.pipeReader c) = true ∧
+    ([Gen.pipeCh_drained_2, Gen.pipeCh_drained_err_2].all fun c =>
+      sendsOn Gen.pipeDrainerStale c && !sendsOn Gen.pipeDrainerStop c && !sendsOn Gen.pipeWriter c && !sendsOn Gen.pipeReader c) = true ∧
+    ([Gen.pipeCh_drained_1, Gen.pipeCh_drained_err_1, Gen.pipeCh_drained_2, Gen.pipeCh_drained_err_2].all fun c =>
+      [Gen.pipeWriter, Gen.pipeDrainerStop, Gen.pipeDrainerStale].all fun p => !recvsOn p c) = true := by decide
 
 /-- the three `close(stopCh)` sites of the reader -/
 theorem three_close_sites : closeSites Gen.pipeReader stopCh = 3 := by decide
@@ -221,7 +285,8 @@ theorem episode_closed :
     Gen.pipe_panic_sites = ["writeAppendEntriesReq"] ∧
     ((Gen.census.filter fun r => r.1 == "resultCh" || r.1 == "drained").all fun r => r.2.1 == "replication.replicate") = true ∧
     Gen.pipeKinds[resultCh]? = some (Kind.buffered 128) ∧ Gen.pipeKinds[stopCh]? = some Kind.sync ∧
-    Gen.pipeKinds[Gen.pipeCh_drained_1]? = some (Kind.buffered 1) ∧ Gen.pipeKinds[Gen.pipeCh_drained_2]? = some (Kind.buffered 1) ∧
+    ([Gen.pipeCh_drained_1, Gen.pipeCh_drained_err_1, Gen.pipeCh_drained_2, Gen.pipeCh_drained_err_2].all fun c =>
+      Gen.pipeKinds[c]? == some (Kind.buffered 1)) = true ∧
     Gen.pipeKinds[rStopCh]? = some Kind.sync := by decide
 
 end Raft.C15Pipe
@@ -230,7 +295,10 @@ end Raft.C15Pipe
 #print axioms Raft.C15Pipe.writer_closes_resultCh_on_every_exit
 #print axioms Raft.C15Pipe.reader_never_stuck_after_writer_exit
 #print axioms Raft.C15Pipe.range_terminates
+#print axioms Raft.C15Pipe.reader_returns_only_after_writer_done
+#print axioms Raft.C15Pipe.writer_never_outlives_reader
 #print axioms Raft.C15Pipe.next_iteration_only_after_writer_exit
+#print axioms Raft.C15Pipe.every_written_request_is_reported
 #print axioms Raft.C15Pipe.writer_terminates_once_stopped
 #print axioms Raft.C15Pipe.replication_can_finish_once_stopped
 #print axioms Raft.C15Pipe.recover_path_is_the_only_panic
